@@ -7,6 +7,63 @@ mod rng;
 mod supervisor;
 mod xutil;
 
+/// Memory guard of the processes that execute cases (shard and replay): C08 holds "provided ...
+/// requested allocation sizes are modest", and xeh has no memory limit of its own. A single request
+/// of 4 GiB or more, or a live footprint above 3 GiB, ends the process with a distinctive exit code;
+/// the supervisor decides what that means for the engine at hand (supervisor::EXIT_*).
+mod memguard {
+    use std::alloc::{GlobalAlloc, Layout, System};
+    use std::sync::atomic::{AtomicBool, AtomicUsize, Ordering::Relaxed};
+
+    pub static ENABLED: AtomicBool = AtomicBool::new(false);
+    static LIVE: AtomicUsize = AtomicUsize::new(0);
+    pub const SINGLE_MAX: usize = 1 << 32;
+    pub const LIVE_MAX: usize = 3 << 30;
+
+    extern "C" {
+        fn _exit(code: i32) -> !;
+    }
+
+    pub struct Guard;
+
+    #[inline]
+    fn charge(size: usize) {
+        if size >= SINGLE_MAX && ENABLED.load(Relaxed) {
+            unsafe { _exit(crate::supervisor::EXIT_IMMODEST_REQUEST) }
+        }
+        let live = LIVE.fetch_add(size, Relaxed) + size;
+        if live > LIVE_MAX && ENABLED.load(Relaxed) {
+            unsafe { _exit(crate::supervisor::EXIT_FOOTPRINT) }
+        }
+    }
+
+    unsafe impl GlobalAlloc for Guard {
+        unsafe fn alloc(&self, l: Layout) -> *mut u8 {
+            charge(l.size());
+            System.alloc(l)
+        }
+        unsafe fn alloc_zeroed(&self, l: Layout) -> *mut u8 {
+            charge(l.size());
+            System.alloc_zeroed(l)
+        }
+        unsafe fn dealloc(&self, p: *mut u8, l: Layout) {
+            LIVE.fetch_sub(l.size(), Relaxed);
+            System.dealloc(p, l)
+        }
+        unsafe fn realloc(&self, p: *mut u8, l: Layout, new_size: usize) -> *mut u8 {
+            if new_size > l.size() {
+                charge(new_size - l.size());
+            } else {
+                LIVE.fetch_sub(l.size() - new_size, Relaxed);
+            }
+            System.realloc(p, l, new_size)
+        }
+    }
+}
+
+#[global_allocator]
+static GLOBAL: memguard::Guard = memguard::Guard;
+
 use crate::core::{Engine, ShardArgs, Tier, Violation};
 use crate::json::Json;
 use crate::supervisor::{EngineInfo, EngineReport, FreshReplay, RunPlan};
@@ -23,6 +80,7 @@ macro_rules! dispatch {
             "chaos" => $f::<engines::chaos::Chaos>($($args),*),
             "bitshare" => $f::<engines::bitshare::Bitshare>($($args),*),
             "clones" => $f::<engines::clones::Clones>($($args),*),
+            "repl" => $f::<engines::repl::Repl>($($args),*),
             other => {
                 eprintln!("unknown engine {}", other);
                 std::process::exit(2);
@@ -31,7 +89,7 @@ macro_rules! dispatch {
     };
 }
 
-const ENGINES: &[&str] = &["drive", "reverse", "limits", "reject", "bitshare", "clones", "cursor", "chaos"];
+const ENGINES: &[&str] = &["drive", "reverse", "limits", "reject", "bitshare", "clones", "cursor", "chaos", "repl"];
 
 fn info_of<E: Engine>() -> EngineInfo {
     EngineInfo { name: E::NAME, prop: E::PROP, rule: E::RULE, real: E::REAL, stub: E::STUB }
@@ -47,19 +105,19 @@ fn plan_for(prop: &str, tier: Tier) -> Vec<(&'static str, u64, &'static str)> {
     let v: Vec<(&'static str, u64)> = match prop {
         // run in both build profiles: overflow-checked arithmetic panics where release wraps
         "C08" => {
-            let n = if q { 60_000 } else { 10_000_000 };
+            let n = if q { 400_000 } else { 10_000_000 };
             return vec![("chaos", n, "release"), ("chaos", n, "checked")];
         }
         "C06" => {
-            let n = if q { 60_000 } else { 6_000_000 };
+            let n = if q { 150_000 } else { 6_000_000 };
             return vec![("cursor", n, "release"), ("cursor", n, "checked")];
         }
-        "C15" => vec![("drive", if q { 200_000 } else { 10_000_000 })],
-        "C10" => vec![("reject", if q { 60_000 } else { 60_000 })],
-        "C04" => vec![("bitshare", if q { 400_000 } else { 40_000_000 })],
-        "C03" => vec![("clones", if q { 30_000 } else { 3_000_000 })],
-        "C14" => vec![("limits", if q { 20_000 } else { 400_000 })],
-        "C02" => vec![("reverse", if q { 40_000 } else { 4_000_000 })],
+        "C15" => vec![("drive", if q { 400_000 } else { 10_000_000 })],
+        "C10" => vec![("reject", if q { 200_000 } else { 60_000 })],
+        "C04" => vec![("bitshare", if q { 1_500_000 } else { 40_000_000 })],
+        "C03" => vec![("clones", if q { 100_000 } else { 3_000_000 }), ("repl", if q { 100_000 } else { 1_000_000 })],
+        "C14" => vec![("limits", if q { 100_000 } else { 400_000 })],
+        "C02" => vec![("reverse", if q { 200_000 } else { 4_000_000 })],
         _ => vec![],
     };
     v.into_iter().map(|(e, n)| (e, n, "release")).collect()
@@ -307,6 +365,7 @@ fn cmd_shard(a: &Args) -> i32 {
         findings_path: a.opt("--findings").unwrap_or("/verif/known_findings.txt").to_string(),
         per_run_log: a.opt("--per-run-log").map(|s| s.to_string()),
         max_secs: a.opt("--max-secs").and_then(|s| s.parse().ok()),
+        skip: a.opt("--skip").map(|s| s.split(',').filter_map(|x| x.parse().ok()).collect()).unwrap_or_default(),
     };
     big_stack(move || {
         core::install_panic_hook();
@@ -323,7 +382,10 @@ fn jobs() -> usize {
         .unwrap_or_else(|| std::thread::available_parallelism().map(|n| n.get()).unwrap_or(4))
 }
 
-fn write_evidence(prop: &str, tier: Tier, seed: u64, reports: &[(EngineInfo, EngineReport)], wall: f64, nviol: usize, known: &[String]) {
+/// `budget_override` is Some(text) when the run count was changed on the command line: such a run is
+/// not the registered check, so its evidence goes to evidence/adhoc/ and never replaces the file the
+/// registered quick/thorough command writes.
+fn write_evidence(prop: &str, tier: Tier, seed: u64, reports: &[(EngineInfo, EngineReport)], wall: f64, nviol: usize, known: &[String], budget_override: Option<&str>) -> String {
     let level = level_for(prop, tier);
     let mut evaluations = 0u64;
     let mut distinct = 0u64;
@@ -388,15 +450,21 @@ fn write_evidence(prop: &str, tier: Tier, seed: u64, reports: &[(EngineInfo, Eng
             "samples" => Json::Arr(samples),
             "engines" => Json::Arr(engines_j),
             "known_findings_reproduced" => Json::Arr(known.iter().map(|s| Json::Str(s.clone())).collect()),
+            "run_budget" => match budget_override {
+                None => format!("the {} tier's built-in budget (plan_for in sim/src/main.rs), no command-line override", tier.name()),
+                Some(o) => format!("NOT the registered {} check: budget overridden on the command line ({})", tier.name(), o),
+            },
             "exhaustive" => false
         },
         "assumptions" => assumptions,
         "wall_s" => wall,
         "violations" => nviol
     };
-    let dir = format!("{}/evidence", verif_dir());
+    let dir = if budget_override.is_some() { format!("{}/evidence/adhoc", verif_dir()) } else { format!("{}/evidence", verif_dir()) };
     std::fs::create_dir_all(&dir).ok();
-    std::fs::write(format!("{}/{}.json", dir, prop), ev.to_pretty()).expect("write evidence");
+    let path = format!("{}/{}.json", dir, prop);
+    std::fs::write(&path, ev.to_pretty()).expect("write evidence");
+    path
 }
 
 fn cmd_check(a: &Args) -> i32 {
@@ -480,7 +548,12 @@ fn cmd_check(a: &Args) -> i32 {
         }
         reports.push((info, r));
     }
-    write_evidence(&prop, tier, seed, &reports, t0.elapsed().as_secs_f64(), nviol, &known_lines);
+    let overrides: Vec<String> = ["--runs", "--scale", "--max-secs"].iter().filter_map(|k| a.opt(k).map(|v| format!("{} {}", k, v))).collect();
+    let budget_override = if overrides.is_empty() { None } else { Some(overrides.join(" ")) };
+    let ev_path = write_evidence(&prop, tier, seed, &reports, t0.elapsed().as_secs_f64(), nviol, &known_lines, budget_override.as_deref());
+    if budget_override.is_some() {
+        println!("note: run budget overridden on the command line; evidence written to {} (the registered evidence file is untouched)", ev_path);
+    }
     if nviol > 0 {
         1
     } else if harness_err {
@@ -583,10 +656,22 @@ fn cmd_gen(a: &Args) -> i32 {
 fn cmd_eval(a: &Args) -> i32 {
     let mut xs = xeh::state::State::boot().unwrap();
     xs.intercept_stdout(true);
-    xs.set_insn_limit(Some(100_000)).unwrap();
+    let lim = a.num("--limit", 100_000) as usize;
+    xs.set_insn_limit(Some(lim)).unwrap();
+    let cr = a.opt("--style") == Some("compile+run");
     for src in &a.pos[1..] {
-        let r = xs.eval(src);
-        println!("eval {:?} -> {:?}", src, r);
+        if cr {
+            // what a REPL line does: the limit is re-armed, then compile and run
+            xs.set_insn_limit(Some(lim)).unwrap();
+            let r = xs.compile(src).and_then(|_| xs.run());
+            println!("compile+run {:?} -> {:?}", src, r);
+        } else {
+            let r = xs.eval(src);
+            println!("eval {:?} -> {:?}", src, r);
+        }
+        let n = xs.data_depth();
+        let stack: Vec<String> = (0..n).map(|i| format!("{:?}", xs.get_data(i).unwrap())).collect();
+        println!("   stack (top first): {:?}", stack);
     }
     let d = xs.verif_dump();
     println!("{:#?}", d);
@@ -597,6 +682,9 @@ fn main() {
     let argv: Vec<String> = std::env::args().skip(1).collect();
     let a = parse_args(&argv);
     let cmd = a.pos.first().map(|s| s.as_str()).unwrap_or("");
+    if cmd == "shard" || cmd == "replay" {
+        memguard::ENABLED.store(true, std::sync::atomic::Ordering::Relaxed);
+    }
     let code = match cmd {
         "shard" => cmd_shard(&a),
         "replay" => cmd_replay(&a),
